@@ -55,12 +55,40 @@ fn tisb_cf(icao: u32) -> Option<u8> {
     }
 }
 
+/// altitude (ft) that the standard assigns to a 12-bit ME altitude code; None = unavailable / illegal
+fn ac12_altitude(c: u16) -> Option<i64> {
+    use std::sync::OnceLock;
+    static T: OnceLock<std::collections::HashMap<u16, i32>> = OnceLock::new();
+    if c == 0 {
+        return None;
+    }
+    if c & 0x10 != 0 {
+        let n = ((c & 0xfe0) >> 1) | (c & 0xf);
+        return Some(25 * n as i64 - 1000);
+    }
+    let f13 = ((c & 0xfc0) << 1) | (c & 0x3f);
+    T.get_or_init(|| crate::oracle::gillham::table().by_field).get(&f13).map(|a| *a as i64)
+}
+
 pub(crate) fn build_frame(icao: u32, lat: f64, lon: f64, odd: bool, surface: bool, rng: &mut Rng) -> Vec<u8> {
     let e = cpr::encode(lat, lon, odd as u32, surface);
     let me = if surface {
         frames::me_surface(7, rng.range(1, 60) as u8, 1, rng.below(128) as u8, 0, odd as u8, e.yz, e.xz)
     } else {
-        frames::me_airborne(11, 0, 0, frames::ac12_from_n(rng.range(100, 1700) as u16), 0, odd as u8, e.yz, e.xz)
+        // one altitude field in five is an arbitrary 12-bit code (unavailable, illegal Gillham, not representable): the
+        // position does not depend on it, and the families that compare records with their frames see "no altitude" too
+        // Codes that stand for an altitude below 5000 ft are left out: decode1090 (below 1000 ft) and jet1090
+        // --update-position (below 5000 ft) move the receiver reference to such an aircraft by design, and the property
+        // speaks of a fixed receiver reference.
+        let ac = match rng.below(10) {
+            0 => 0,
+            1 => {
+                let c = rng.below(4096) as u16;
+                if ac12_altitude(c).is_some_and(|alt| alt < 5000) { frames::ac12_from_n(rng.range(300, 1700) as u16) } else { c }
+            }
+            _ => frames::ac12_from_n(rng.range(300, 1700) as u16),
+        };
+        frames::me_airborne(11, 0, 0, ac, 0, odd as u8, e.yz, e.xz)
     };
     match tisb_cf(icao) {
         Some(cf) => {
